@@ -326,11 +326,11 @@ class SymmetryTranslator:
                 ):
                     ret[ComparisonOperator.NotEqual].append((lit, atom.term, guard.term))
                 elif (lit.sign == Sign.NoSign and guard.comparison == ComparisonOperator.LessThan) or (
-                    lit.sign == Sign.Negation and guard.comparison == ComparisonOperator.GreaterThan
+                    lit.sign == Sign.Negation and guard.comparison == ComparisonOperator.GreaterEqual
                 ):
                     ret[ComparisonOperator.LessThan].append((lit, atom.term, guard.term))
                 elif (lit.sign == Sign.NoSign and guard.comparison == ComparisonOperator.GreaterThan) or (
-                    lit.sign == Sign.Negation and guard.comparison == ComparisonOperator.LessThan
+                    lit.sign == Sign.Negation and guard.comparison == ComparisonOperator.LessEqual
                 ):
                     ret[ComparisonOperator.LessThan].append((lit, guard.term, atom.term))
         return ret
@@ -380,7 +380,7 @@ class SymmetryTranslator:
                 ):
                     log.info(f"Replace atleast2 in aggregate {str(blit)}.")
                     for lit in symmetry_bundle.remove_lits():
-                        condition.remove(lit)
+                        condition = [x for x in condition if x != lit]  # also a repeated copy of the literal
                     for lit in symmetry_bundle.add_lits():
                         condition.append(lit)
                     ret.extend(symmetry_bundle.aux_rules())
@@ -411,7 +411,7 @@ class SymmetryTranslator:
             if not symmetry_bundle.empty():
                 log.info(f"Replace atleast2 in {str(stm)}")
                 for lit in symmetry_bundle.remove_lits():
-                    body.remove(lit)
+                    body = [x for x in body if x != lit]  # also a repeated copy of the literal
                 for lit in symmetry_bundle.add_lits():
                     body.append(lit)
                 ret.extend(symmetry_bundle.aux_rules())
